@@ -1022,17 +1022,17 @@ fn main() {
     }
 
     // ---- gc
-    let n_gc = if thorough { 100 } else { 8 };
+    let n_gc = if thorough { 100 } else { 16 };
     let tasks: Vec<Value> = (0..n_gc).map(|i| json!({"t": "gc", "seed": seed.wrapping_mul(1000) + i, "n": 100})).collect();
     run_tasks(&mut out, &tasks, 8, Duration::from_secs(600));
 
     // ---- verify on generated programs
-    let n_v = if thorough { 60 } else { 4 };
+    let n_v = if thorough { 60 } else { 8 };
     let tasks: Vec<Value> = (0..n_v).map(|i| json!({"t": "verify-surf", "seed": seed.wrapping_mul(1000) + i, "n": 150})).collect();
     run_tasks(&mut out, &tasks, 4, Duration::from_secs(900));
 
     // ---- stack families: thresholds at small sizes (bisected), then constancy for tail families
-    let small: &[u64] = if thorough { &[0, 1, 2, 3, 4, 5, 8, 13, 40, 100, 333, 1000, 3000] } else { &[0, 1, 2, 3, 7, 40, 200] };
+    let small: &[u64] = if thorough { &[0, 1, 2, 3, 4, 5, 8, 13, 40, 100, 333, 1000, 3000] } else { &[0, 1, 2, 3, 7, 40, 200, 1000] };
     let mut tasks = vec![];
     for f in families::STACK_FAMILIES {
         for &n in small {
@@ -1106,13 +1106,29 @@ fn main() {
 
     // ---- memory
     let mut rng = gv::rng::Rng::new(seed, 0xC07E);
-    let n_mem = if thorough { 300 } else { 27 };
-    let tasks: Vec<Value> = families::mem_programs(&mut rng, n_mem)
-        .into_iter()
-        .map(|(name, src)| json!({"t": "mem", "name": name, "source": src}))
-        .collect();
+    let n_mem = if thorough { 300 } else { 45 };
+    let mut tasks: Vec<Value> = vec![];
+    // corpus first: minimised past failures (corpus/C07/*.json with a `mem` case)
+    if let Ok(rd) = std::fs::read_dir("/verif/corpus/C07") {
+        let mut files: Vec<_> = rd.flatten().map(|e| e.path()).collect();
+        files.sort();
+        for f in files {
+            if let Ok(v) = serde_json::from_str::<Value>(&std::fs::read_to_string(&f).unwrap_or_default()) {
+                let c = &v["case"];
+                if c["task"] == "mem" || c["t"] == "mem" {
+                    tasks.push(json!({"t": "mem", "name": c["name"], "source": c["source"]}));
+                    out.count("corpus:mem");
+                }
+            }
+        }
+    }
+    tasks.extend(
+        families::mem_programs(&mut rng, n_mem)
+            .into_iter()
+            .map(|(name, src)| json!({"t": "mem", "name": name, "source": src})),
+    );
     run_tasks(&mut out, &tasks, 3, Duration::from_secs(900));
-    let n_ms = if thorough { 40 } else { 3 };
+    let n_ms = if thorough { 40 } else { 5 };
     let tasks: Vec<Value> = (0..n_ms).map(|i| json!({"t": "mem-surf", "seed": seed.wrapping_mul(1000) + i, "n": 60})).collect();
     run_tasks(&mut out, &tasks, 2, Duration::from_secs(900));
 
@@ -1125,8 +1141,8 @@ fn main() {
         (json!({"t": "deep", "family": "deep-list-tail", "n": 1_000_000u64, "mem": 1_000_000u64}), vec!["err:oom"]),
         (json!({"t": "deep", "family": "deep-list-tail", "n": 1_000_000u64, "mem": 2_000_000_000u64}), vec!["ok", "err:oom"]),
     ];
+    deep.push((json!({"t": "deep", "family": "deep-closure-chain", "n": 1_000_000u64, "mem": 2_000_000_000u64}), vec!["ok", "err:oom"]));
     if thorough {
-        deep.push((json!({"t": "deep", "family": "deep-closure-chain", "n": 1_000_000u64, "mem": 2_000_000_000u64}), vec!["ok", "err:oom"]));
         deep.push((json!({"t": "deep", "family": "nontail-mutual", "n": 1_000_000u64, "stack": 1_000_000}), vec!["err:stack"]));
     }
     for (task, allowed) in &deep {
